@@ -155,8 +155,8 @@ class OQPSKDemodulator(BaseDemodulator):
 
         if noise_var is None:
             # Hard decision: independent decisions for I and Q
-            bits_real = (y_real >= 0).float()  # 1 if positive, 0 if negative
-            bits_imag = (y_imag >= 0).float()  # 1 if positive, 0 if negative
+            bits_real = (y_real < 0).float()  # bit 0 maps to +1, bit 1 to -1
+            bits_imag = (y_imag < 0).float()  # bit 0 maps to +1, bit 1 to -1
 
             return torch.cat([bits_real.reshape(*batch_shape, 1), bits_imag.reshape(*batch_shape, 1)], dim=-1).reshape(*batch_shape[:-1], -1)
         else:
